@@ -24,7 +24,8 @@ def sh(cmd, cwd=None, timeout=3600, env=None):
 def worktree(name):
     wt = "/tmp/seedrun-%s-%d" % (name, os.getpid())
     sh("git -C /repo worktree remove --force %s" % wt)
-    rc, out = sh("git -C /repo worktree add --detach %s HEAD" % wt)
+    # SEED_BASE: commit to base the scratch worktree on (default HEAD); used for changes recorded against an earlier /repo HEAD
+    rc, out = sh("git -C /repo worktree add --detach %s %s" % (wt, os.environ.get("SEED_BASE", "HEAD")))
     assert rc == 0, out
     return wt
 
